@@ -735,6 +735,15 @@ func (fr *Frame) convert(x *ssa.Convert, st *State, reach string) Val {
 		}
 		return Val{T: to, Term: app("to_real", vt)}
 	case isFloat(from) && isInteger(to):
+		if c.floatsIEEE {
+			// IEEE mode: the conversion is a (deterministic) function of the float value; which function is not
+			// modelled beyond its range, so int64(a/b) and int64(a*(1/b)) are equal only where a/b and a*(1/b) are
+			fn := "f2i_" + sanitize(to.Underlying().String())
+			c.smt.declareFun(fn, []string{c.floatSort()}, "Int")
+			r := c.smt.define("f2i", "Int", app(fn, vt))
+			c.smt.assume(rangeFact(to, r), "float→int conversion yields a value of the target type")
+			return Val{T: to, Term: r}
+		}
 		r := c.smt.declareFresh("f2i", "Int")
 		c.smt.assume(rangeFact(to, r), "")
 		if !c.floatsIEEE {
